@@ -27,7 +27,7 @@ func init() {
 
 var c06Ops = []string{"mintquote", "mint", "swap", "meltquote", "melt", "checkstate", "restore"}
 
-const c06NumMut = 23
+const c06NumMut = 24
 
 func coreC06(tier string) []RunSpec {
 	var out []RunSpec
@@ -336,6 +336,15 @@ func mutate(T *Tape, valid map[string]any, kind int) mutant {
 			if ok0 && ok1 {
 				a1["B_"] = a0["B_"]
 				m.Desc = "reuse-B_ outputs"
+			}
+		}
+	case 23: // two outputs are one point in two spellings (upper case / uncompressed / mixed case)
+		if arr, ok := root["outputs"].([]any); ok && len(arr) >= 2 {
+			a0, ok0 := arr[0].(map[string]any)
+			a1, ok1 := arr[1].(map[string]any)
+			if b, isStr := a0["B_"].(string); ok0 && ok1 && isStr {
+				a1["B_"] = respellPoint(b, T.Choose("mut.respell", 3))
+				m.Desc = "respelled-B_ outputs"
 			}
 		}
 	}
